@@ -265,6 +265,55 @@ func c08(tier string, args []string) int {
 				}
 				nd.Stop()
 			}
+			// a restart in the MIDDLE of a message (the process dies before one of the store
+			// writes of that message) followed by consuming the rest: the log is still applied
+			// exactly once in effect
+			if name == "honest" {
+				for pos := 0; pos < len(L); pos++ {
+					for wIdx := 1; wIdx <= 6; wIdx++ {
+						st := world.NewMemState(world.Topic)
+						st.Restore(S[pos])
+						writes := 0
+						armed := true
+						hs := &world.HookedState{Inner: st, Hook: func(op, key, phase string) {
+							if phase != "pre" || (op != "set" && op != "saveoffset" && op != "delete") || !armed {
+								return
+							}
+							writes++
+							if writes == wIdx {
+								armed = false
+								panic(world.CrashSentinel{Point: fmt.Sprintf("before store write %d of message %d", wIdx, pos)})
+							}
+						}}
+						b := world.NewBoard()
+						b.SetLog(L)
+						nd, err := world.NewNodeOver(lab.Node.Name, lab.Node.KeyPair, hs, b.NewHandle())
+						if err != nil {
+							r.Infra("node: %v", err)
+						}
+						writes = 0 // the constructor's own initialisation is not part of the message
+						armed = true
+						_ = nd.Tick(pos + 1)
+						crashed := nd.Crashed != nil
+						nd.Stop()
+						if !crashed {
+							break // this message has fewer store writes
+						}
+						nd2, err := world.NewNodeOver(lab.Node.Name, lab.Node.KeyPair, st, b.NewHandle())
+						if err != nil {
+							r.Infra("restart: %v", err)
+						}
+						if err := nd2.Tick(len(L)); err != nil {
+							r.Infra("poll loop: %v", err)
+						}
+						transitions++
+						if publicProjection(nd2.Mem.Snapshot(), "") != publicProjection(S[len(L)], "") {
+							r.Violation("C08/crash-inside-message-changes-state", fmt.Sprintf("node %d killed before store write %d while handling message %d (%s), restarted and fed the rest of the log, reaches a different public state than the uninterrupted node", v, wIdx, pos, L[pos].Event), map[string]interface{}{"view": v, "position": pos, "write": wIdx})
+						}
+						nd2.Stop()
+					}
+				}
+			}
 			// ---- (e) state reset with an ignore list = fresh node on the filtered log
 			if name == "with-junk" {
 				var ignoreIDs []string
